@@ -18,7 +18,8 @@ for d in "$MD"/$PAT; do
   # changes written against an older revision: 3-way merge against HEAD, else the revision named by MUTANT_BASE
   git apply "$d/patch.diff" 2>/dev/null || git apply --3way "$d/patch.diff" 2>/dev/null || { git reset -q --hard; [ -n "${MUTANT_BASE:-}" ] && git checkout -q --detach "$MUTANT_BASE" && git apply "$d/patch.diff" 2>/dev/null; } || { echo "{\"mutant\":\"$name\",\"property\":\"$prop\",\"applies\":false,\"checks\":{}}" >> "$OUT"; continue; }
   results=""
-  for id in ${CHECK_IDS:-$(seq -w 1 19)}; do
+  ids="${CHECK_IDS:-$(seq -w 1 19)}"; [ -n "${OWN_ONLY:-}" ] && ids="${prop#C}"
+  for id in $ids; do
     rm -f "$MH"/replays/*.json
     o=$(VERIF_REPO="$WT" "$MH/bin/check" "C$id" quick 2>&1); rc=$?
     sig=$(echo "$o" | grep -m1 'signature=' | sed 's/.*signature=//' | cut -c1-80)
